@@ -351,10 +351,10 @@ func (m *FloodSub) handleValidMessage(
 ) {
 	channelID := pktInner.GetChannel()
 	msgId := pkt.ComputeMessageID()
-	if _, ok := m.seenMessages.Get(msgId); ok {
+	// Add is atomic: it fails if the (unexpired) id is already present.
+	if err := m.seenMessages.Add(msgId, pkt, 0); err != nil {
 		return
 	}
-	m.seenMessages.Set(msgId, pkt, 0)
 
 	pid, err := peer.IDB58Decode(pkt.GetFromPeerId())
 	if err != nil {
